@@ -19,6 +19,8 @@ type Case struct {
 	Set  []rsx.RouteSpec `json:"set"`
 	Prof rsx.Profile     `json:"prof"`
 	Req  rsx.Req         `json:"req"`
+	// Extra, when set, is registered under GET after Set and deleted again before the request
+	Extra string `json:"extra,omitempty"`
 }
 
 var methods = []string{"GET", "POST", "CONNECT"}
@@ -256,6 +258,9 @@ type poolDef struct {
 	k        int
 	opts     []int // slash options explored per pattern
 	prof     rsx.Profile
+	// afterDelete: every set is built with each further pool pattern registered (GET) and deleted
+	// again; only those routers are evaluated
+	afterDelete bool
 }
 
 func pools(quick bool) []poolDef {
@@ -267,10 +272,10 @@ func pools(quick bool) []poolDef {
 		k = 2
 	}
 	ps := []poolDef{
-		{"flat", flatQ, paths3, []string{""}, k, nil, rsx.Profile{}},
+		{name: "flat", patterns: flatQ, paths: paths3, hosts: []string{""}, k: k},
 	}
 	mid := rsx.GenPatterns([]string{"a", "a{}", "a*{}", "*{}"}, 2, true, "")
-	ps = append(ps, poolDef{"mid", mid, append(rsx.GenPaths([]string{"a", "ab", "aa", "b"}, 3), unclean...), []string{""}, k, nil, rsx.Profile{}})
+	ps = append(ps, poolDef{name: "mid", patterns: mid, paths: append(rsx.GenPaths([]string{"a", "ab", "aa", "b"}, 3), unclean...), hosts: []string{""}, k: k})
 	var hostPats []string
 	for _, h := range []string{"a.b", "{h}.b", "a.{t}"} {
 		for _, p := range []string{"/", "/a", "/a/", "/{p0}", "/{p0}/", "/*{c0}", "/*{c0}/"} {
@@ -278,7 +283,7 @@ func pools(quick bool) []poolDef {
 		}
 	}
 	hostPats = append(hostPats, "/", "/a", "/a/", "/{p0}", "/{p0}/", "/*{c0}", "/a/b", "/a/b/")
-	ps = append(ps, poolDef{"host", hostPats, rsx.GenPaths([]string{"a", "b"}, 2), []string{"", "a.b", "x.b", "a.b:80", "c.d"}, k, nil, rsx.Profile{}})
+	ps = append(ps, poolDef{name: "host", patterns: hostPats, paths: rsx.GenPaths([]string{"a", "b"}, 2), hosts: []string{"", "a.b", "x.b", "a.b:80", "c.d"}, k: k})
 	// router-wide trailing-slash modes (routes inherit them)
 	ps = append(ps, poolDef{name: "flat-global-ignore", patterns: flatQ, paths: paths3, hosts: []string{""}, k: k, opts: []int{rsx.SlashNone}, prof: rsx.Profile{Slash: rsx.SlashIgnore}},
 		poolDef{name: "flat-global-redirect", patterns: flatQ, paths: paths3, hosts: []string{""}, k: k, opts: []int{rsx.SlashNone}, prof: rsx.Profile{Slash: rsx.SlashRedirect}})
@@ -293,9 +298,11 @@ func pools(quick bool) []poolDef {
 	// remove-slash / add-slash candidates met while backtracking; the first one must win)
 	mid2 := []string{"/a/b", "/a/b/", "/{p0}/b", "/{p0}/b/", "/{p0}/b{p1}", "/{p0}/b{p1}/", "/a/b{p1}", "/a/{p1}", "/{p0}/{p1}", "/{p0}/b*{c1}"}
 	ps = append(ps, poolDef{name: "mid2", patterns: mid2, paths: rsx.GenPaths([]string{"a", "b", "bb"}, 2), hosts: []string{""}, k: 3})
+	// flat pool again, every set (<=2) built with one more pattern registered and deleted (node merges)
+	ps = append(ps, poolDef{name: "flat-after-delete", patterns: flatQ, paths: rsx.GenPaths([]string{"a", "b", "ab"}, 2), hosts: []string{""}, k: 2, opts: []int{rsx.SlashNone, rsx.SlashIgnore}, afterDelete: true})
 	if !quick {
 		core := append([]string{"/"}, rsx.GenPatterns([]string{"a", "{}", "*{}"}, 2, true, "")...)
-		ps = append(ps, poolDef{"core4", core, rsx.GenPaths([]string{"a", "b"}, 3), []string{""}, 4, nil, rsx.Profile{}})
+		ps = append(ps, poolDef{name: "core4", patterns: core, paths: rsx.GenPaths([]string{"a", "b"}, 3), hosts: []string{""}, k: 4})
 	}
 	return ps
 }
@@ -330,37 +337,68 @@ func runPool(c *mc.Ctx, r *mc.Result, pd poolDef) {
 			set = append(set, specs[x])
 		}
 		full := expand(set)
+		evalEnv := func(e *rsx.Env, extra string) {
+			if err := e.WithViews(); err != nil {
+				r.Violate("rsx", "txn-disagree", err.Error()+" set "+rsx.SetString(full), Case{Set: full, Prof: pd.prof, Extra: extra})
+				return
+			}
+			defer e.Done()
+			r.States++
+			pre := ""
+			if extra != "" {
+				pre = fmt.Sprintf("[after Handle(GET %s) and Delete(GET %s)] ", extra, extra)
+			}
+			for _, h := range pd.hosts {
+				for _, p := range pd.paths {
+					for mi, m := range methods {
+						rq := rsx.Req{Method: m, Host: h, Path: p}
+						abst, nontriv, class, msg := eval(e, rq, mi == 0)
+						r.Evaluations++
+						r.Transitions++
+						if abst {
+							r.Abstained++
+						}
+						if nontriv {
+							r.DistinctNontrivial++
+						}
+						if class != "" {
+							if strings.HasPrefix(msg, ShapePCS) {
+								msg = ShapePCS + pre + strings.TrimPrefix(msg, ShapePCS)
+							} else {
+								msg = pre + msg
+							}
+							r.Violate("rsx", class, msg, Case{Set: full, Prof: pd.prof, Req: rq, Extra: extra})
+						}
+					}
+				}
+			}
+		}
+		if pd.afterDelete {
+			in := map[string]bool{}
+			for _, sp := range set {
+				in[sp.Pattern] = true
+			}
+			for _, extra := range pd.patterns {
+				if in[extra] {
+					continue
+				}
+				e, err := rsx.BuildAfterDelete(full, "GET", extra, false, pd.prof)
+				if err != nil {
+					r.Count("histories_rejected_by_router", 1)
+					continue
+				}
+				evalEnv(e, extra)
+			}
+			r.Count("sets", 1)
+			return
+		}
 		e, err := rsx.Build(full, pd.prof)
 		if err != nil {
 			r.Count("sets_rejected_by_router", 1)
 			return
 		}
-		if err := e.WithViews(); err != nil {
-			r.Violate("rsx", "txn-disagree", err.Error()+" set "+rsx.SetString(full), Case{Set: full, Prof: pd.prof})
-			return
-		}
-		defer e.Done()
 		r.Count("sets", 1)
-		r.States++
-		for _, h := range pd.hosts {
-			for _, p := range pd.paths {
-				for mi, m := range methods {
-					rq := rsx.Req{Method: m, Host: h, Path: p}
-					abst, nontriv, class, msg := eval(e, rq, mi == 0)
-					r.Evaluations++
-					r.Transitions++
-					if abst {
-						r.Abstained++
-					}
-					if nontriv {
-						r.DistinctNontrivial++
-					}
-					if class != "" {
-						r.Violate("rsx", class, msg, Case{Set: full, Prof: pd.prof, Req: rq})
-					}
-				}
-			}
-		}
+		evalEnv(e, "")
 		if i < 2 {
 			r.Sample(map[string]any{"pool": pd.name, "set": rsx.SetString(set), "requests": len(pd.hosts) * len(pd.paths) * len(methods)})
 		}
@@ -460,7 +498,15 @@ func replay(c *mc.Ctx, raw json.RawMessage) string {
 	if err := json.Unmarshal(raw, &cs); err != nil {
 		return "bad case: " + err.Error()
 	}
-	e, err := rsx.Build(cs.Set, cs.Prof)
+	var e *rsx.Env
+	var err error
+	pre := ""
+	if cs.Extra != "" {
+		e, err = rsx.BuildAfterDelete(cs.Set, "GET", cs.Extra, false, cs.Prof)
+		pre = fmt.Sprintf("[after Handle(GET %s) and Delete(GET %s)] ", cs.Extra, cs.Extra)
+	} else {
+		e, err = rsx.Build(cs.Set, cs.Prof)
+	}
 	if err != nil {
 		return ""
 	}
@@ -469,6 +515,13 @@ func replay(c *mc.Ctx, raw json.RawMessage) string {
 	}
 	defer e.Done()
 	_, _, _, msg := eval(e, cs.Req, true)
+	if msg != "" {
+		if strings.HasPrefix(msg, ShapePCS) {
+			msg = ShapePCS + pre + strings.TrimPrefix(msg, ShapePCS)
+		} else {
+			msg = pre + msg
+		}
+	}
 	return msg
 }
 
